@@ -115,9 +115,7 @@ def handle (j : Json) : P Json := do
       | _ => throw "parse_part: mapping expected"
   | "parse_path" => do
       let spec ← decVal a[1]!
-      pure (encOutcome (fun (r : Sniffed) => match r with
-        | .path p => Json.arr #["path", encPath p]
-        | .val v => Json.arr #["lit", encVal v]) (parsePathSpec 200 spec))
+      pure (encOutcome (fun (r : Sniffed) => encArg r.toArg) (parsePathSpec 200 spec))
   | "from_part_specs" => do
       let parts ← (← arr a[1]!).toList.mapM decVal
       pure (encOutcome encPath (fromPartSpecs 200 parts))
